@@ -37,7 +37,7 @@ RULE = (
     "already consumed), and contains a repeat or a second computation."
 )
 ASSUMPTIONS = ["the reference table itself comes from the library (ascending requests on a separate computation); correctness of values is C01-C05's job"]
-REQUIRED_CLASSES = {"all": ["op:slice", "op:new", "op:repeat", "op:get_fresh", "mode=nonhermitian", "repr=sparse", "repr=sympy", "selection=mask"]}
+REQUIRED_CLASSES = {"all": ["op:slice", "op:new", "op:repeat", "op:get_fresh", "mode=nonhermitian", "mode=implicit", "repr=sparse", "repr=sympy", "selection=mask"]}
 
 SERIES = ["H_tilde", "U", "U_inv"]
 
@@ -46,9 +46,17 @@ def strategy(tier):
     herm = problems(tier, hermitian=True, max_K=4)
     nh = problems(tier, hermitian=False, complex_energy=True, max_K=3)
 
+    from props.c06 import _case as implicit_case
+
     @st.composite
     def cases(draw):
-        p = draw(st.one_of(herm, herm, nh))
+        if draw(st.integers(0, 4)) == 0:
+            # implicit mode (direct solver): 1-2 explicit blocks + the implicit block
+            imp = draw(implicit_case(tier))
+            imp["solver"] = "direct"
+            p = {"implicit": imp, "n_params": imp["n_params"], "blocks": list(imp["sizes"]) + [imp["n"] - sum(imp["sizes"])], "K": imp["K"]}
+        else:
+            p = draw(st.one_of(herm, herm, nh))
         k, nb, K = p["n_params"], len(p["blocks"]), p["K"]
         orders = orders_upto(k, K)
         ops = []
@@ -84,6 +92,10 @@ def _norm(v):
         return ("one", None)
     if sparse.issparse(v):
         return ("num", v.toarray())
+    from scipy.sparse.linalg import LinearOperator
+
+    if isinstance(v, LinearOperator):
+        return ("num", np.asarray(v @ np.eye(v.shape[1])))
     if isinstance(v, sympy.MatrixBase):
         return ("sym", sympy.ImmutableMatrix(v))
     return ("num", np.array(v))
@@ -137,9 +149,18 @@ def check_case(case, enforce_all=False):
 
     out = Outcome()
     p = case["problem"]
-    out.labels = bd_checks.labels_for(p) + ["mode=hermitian" if p["hermitian"] else "mode=nonhermitian"]
     nb, k, K = len(p["blocks"]), p["n_params"], p["K"]
-    ham, kwargs = library_input(p)
+    if "implicit" in p:
+        from props.c06 import build_inputs
+
+        B_ = build_inputs(p["implicit"])
+        ham = B_["ham"]
+        kwargs = dict(B_["kwargs"], subspace_eigenvectors=B_["vec_impl"], **B_["opts"])
+        out.labels = ["mode=implicit"] + B_["labels"]
+        p = dict(p, repr="dense")
+    else:
+        out.labels = bd_checks.labels_for(p) + ["mode=hermitian" if p["hermitian"] else "mode=nonhermitian"]
+        ham, kwargs = library_input(p)
     snap = _snapshot_inputs(ham, kwargs)
 
     def compute(h, kw):
@@ -189,7 +210,9 @@ def check_case(case, enforce_all=False):
                 fresh = compute(*copy.deepcopy((ham, kwargs)))
                 if not _same(_norm(element(fresh[name], (i, j) + n)), got):
                     return out.fail("fresh-differs", f"{name}[{i},{j},{list(n)}] differs from a fresh single-request computation")
-            if got[0] in ("num", "sym"):
+            from scipy.sparse.linalg import LinearOperator
+
+            if got[0] in ("num", "sym") and not isinstance(v, LinearOperator):
                 handed.append((f"{name}[{i},{j},{list(n)}]@{c}", v, copy.deepcopy(v)))
             if sum(n) < max_seen.get(c, -1):
                 flags["lower_after_higher"] = True
